@@ -470,6 +470,7 @@ def run(ctx):
     from rules import C07
     from tbxlint.report import RuleAlias
     actx = RuleAlias(ctx, 'C07.R', 'C06.B')
-    for g in (C07.r1_invariant, C07.r2_copies, C07.r3_post, C07.r4_independence, C07.r5_commit_after_alloc, C07.r6_primitives, C07.r7_no_wrap):
+    from rules import C07_replay
+    for g in (C07.r1_invariant, C07.r2_copies, C07.r3_post, C07.r4_independence, C07.r5_commit_after_alloc, C07.r6_primitives, C07.r7_no_wrap, C07_replay.r8):
         ctx.guard(g, actx, prog)
     return prog
